@@ -336,6 +336,13 @@ HANDMADE = [
     {"catalogue": {"a": {"instances": None, "inputs": ["x"], "req": ["1"], "opt": [],
                          "body": {"1": {"k": "in", "n": "x", "br": [{"k": "ret", "e": "acc", "c": 0}]}}}},
      "unknown": ["z"], "request": ["a", "a"], "fieldNames": []},
+    # inputs read through the Mapping API of the accessor (`x in i`, `i.get(x, 0)`): still reads -- an absent input is MISSING, not "not there";
+    # line 2 makes the solver ask for x after line 1 has been tried
+    {"catalogue": {"a": {"instances": None, "inputs": ["x", "y"], "req": ["1", "2", "3"], "opt": [],
+                         "body": {"1": {"k": "in", "via": "in", "n": "x", "br": [{"k": "ret", "e": "acc", "c": 0}]},
+                                  "2": {"k": "in", "n": "x", "br": [{"k": "in", "n": "y", "br": [{"k": "ret", "e": "acc", "c": 0}]}]},
+                                  "3": {"k": "in", "via": "get", "n": "y", "br": [{"k": "ret", "e": "acc", "c": 0}]}}}},
+     "unknown": ["z"], "request": ["a"], "fieldNames": []},
 ]
 
 
@@ -403,6 +410,14 @@ def build_forms(prog):
                     val = plain(v[t["n"]]) if val else 0
                     acc = (acc + val) % 2
                     t = t["br"][0]
+                elif k == "in" and t.get("via") == "in":
+                    val = plain(i[t["n"]]) if (t["n"] in i) else 0      # (an absent input raises from the membership test itself)
+                    acc = (acc + val) % 2
+                    t = t["br"][0]
+                elif k == "in" and t.get("via") == "get":
+                    val = plain(i.get(t["n"], 0))
+                    acc = (acc + val) % 2
+                    t = t["br"][0 if len(t["br"]) == 1 else val]
                 elif k == "in" or k == "ln":
                     val = plain((i if k == "in" else v)[t["n"]])
                     acc = (acc + val) % 2
